@@ -122,7 +122,9 @@ fn gpos_mark_to_base(parser: &mut Parser, recovery: TokenSet) {
 }
 
 fn gpos_mark_to_(parser: &mut Parser, recovery: TokenSet) {
-    glyph::eat_glyph_or_glyph_class(
+    // the base is required: without an error here validation would later
+    // unwrap a missing node
+    glyph::expect_glyph_or_glyph_class(
         parser,
         recovery.union(TokenSet::new(&[Kind::LAngle, Kind::AnchorKw])),
     );
@@ -133,7 +135,7 @@ fn gpos_mark_to_(parser: &mut Parser, recovery: TokenSet) {
 fn gpos_ligature(parser: &mut Parser, recovery: TokenSet) {
     assert!(parser.nth_raw(0) == b"ligature");
     parser.eat_remap(Kind::Ident, AstKind::LigatureKw);
-    glyph::eat_glyph_or_glyph_class(
+    glyph::expect_glyph_or_glyph_class(
         parser,
         recovery.union(TokenSet::new(&[Kind::LAngle, Kind::AnchorKw])),
     );
